@@ -1,0 +1,15 @@
+//go:build verif
+
+package node
+
+// Verification hook of the view-change client family (build tag `verif` only; add-only).
+
+import "net/http"
+
+// VerifVCSetTransport replaces the transport of the node-to-node HTTP client and returns the
+// previous one, so that a harness can deliver node-to-node requests in-process.
+func VerifVCSetTransport(rt http.RoundTripper) http.RoundTripper {
+	old := httpClient.Transport
+	httpClient.Transport = rt
+	return old
+}
